@@ -131,6 +131,7 @@ class Ctx:
         self.rule = ''
         self.assumptions = []
         self.extra = {}
+        self.transcripts = {}     # (build name, harness, args) -> {case: digest}
 
     # ---------------------------------------------------------------- builds
     def build(self, cfg, flavour='rel', targets=('ascon_static',), cc=None):
@@ -254,6 +255,8 @@ class Ctx:
                     local[f[1]] = local.get(f[1], 0) + int(f[2])
                 elif f[0] == 'M' and len(f) >= 3:
                     self.maxima[f[1]] = max(self.maxima.get(f[1], 0), int(f[2]))
+                elif f[0] == 't' and len(f) >= 3:
+                    self.transcripts.setdefault((b.name, harness, tuple(extra_args)), {})[int(f[1])] = f[2]
                 elif f[0] == 'E':
                     ended = True
             if rc == 'timeout':
